@@ -11,6 +11,7 @@ import (
 	"go.pennock.tech/tabular"
 	"go.pennock.tech/tabular/length"
 	"go.pennock.tech/tabular/markdown"
+	"go.pennock.tech/tabular/properties/align"
 )
 
 // pipe / backslash / entity-hostile alphabet
@@ -301,6 +302,206 @@ func randAlign(r *RNG, maxCol int) map[int]int {
 	return m
 }
 
+// mdAlignCb is a property callback registered (after the build) for render
+// time which sets or clears the alignment of a column WHILE the table is being
+// rendered.  The delimiter row (and the padding) of a render must show the
+// alignments as they stand after that render's callbacks ran.
+//
+//	Owner 0: the table, on itself       1: column OwnerIdx, on itself
+//	      2: the table, on every cell   3: column OwnerIdx, on each of its cells
+//	      4: the markdown wrapper named as owner (it stands for the table), on itself
+//	      5: row OwnerIdx of AllRows(), on itself
+//	      6: header cell OwnerIdx (CellAt row 0 is not addressable: body row 1's cell OwnerIdx), on itself
+//	When  0 pre-cell, 1 render (cell targets only), 2 post-cell
+//	Col   the column whose alignment is written (0 = the all-columns default);
+//	      Self: written through the PropertyOwner handed to the callback when
+//	      that is the column itself (Owner 1 with Col == OwnerIdx)
+//	Seq   the value written at the k-th invocation (0 clears, 1 L, 2 R, 3 C);
+//	      the last entry repeats
+//
+// Whatever a callback writes is logged in execution order; the expected
+// alignment of a column is the last logged write, else what the build set.
+type mdAlignCb struct {
+	Owner    int   `json:"owner"`
+	OwnerIdx int   `json:"owner_idx,omitempty"`
+	When     int   `json:"when"`
+	Col      int   `json:"col"`
+	Seq      []int `json:"seq"`
+}
+
+type mdAlignWrite struct{ col, val int }
+
+type mdAlignCbRun struct {
+	spec  mdAlignCb
+	t     tabular.Table
+	count int
+	log   *[]mdAlignWrite
+}
+
+func (c *mdAlignCbRun) UpdateProperties(po tabular.PropertyOwner) error {
+	if len(c.spec.Seq) == 0 {
+		return nil
+	}
+	k := c.count
+	if k >= len(c.spec.Seq) {
+		k = len(c.spec.Seq) - 1
+	}
+	c.count++
+	val := c.spec.Seq[k]
+	var target tabular.PropertyOwner
+	if c.spec.Owner == 1 && c.spec.Col == c.spec.OwnerIdx {
+		target = po // the column itself, as handed to the callback
+	} else if col := c.t.Column(c.spec.Col); col != nil {
+		target = col
+	}
+	if target == nil {
+		return nil
+	}
+	if val == 0 {
+		target.SetProperty(align.PropertyType, nil)
+	} else {
+		target.SetProperty(align.PropertyType, alignVals[val])
+	}
+	*c.log = append(*c.log, mdAlignWrite{c.spec.Col, val})
+	return nil
+}
+
+// registers the callbacks; errors (no such column / row / cell, unsupported
+// combination) just mean that the callback never runs and never logs
+func mdRegisterAlignCbs(t tabular.Table, mt *markdown.MarkdownTable, cbs []mdAlignCb, log *[]mdAlignWrite) {
+	for _, cb := range cbs {
+		run := &mdAlignCbRun{spec: cb, t: t, log: log}
+		when := tabular.CB_AT_RENDER_PRECELL
+		switch cb.When {
+		case 1:
+			when = tabular.CB_AT_RENDER
+		case 2:
+			when = tabular.CB_AT_RENDER_POSTCELL
+		}
+		switch cb.Owner {
+		case 0:
+			t.RegisterPropertyCallback(t, when, tabular.CB_ON_ITSELF, run)
+		case 1:
+			if col := t.Column(cb.OwnerIdx); col != nil {
+				t.RegisterPropertyCallback(col, when, tabular.CB_ON_ITSELF, run)
+			}
+		case 2:
+			t.RegisterPropertyCallback(t, when, tabular.CB_ON_CELL, run)
+		case 3:
+			if col := t.Column(cb.OwnerIdx); col != nil {
+				t.RegisterPropertyCallback(col, when, tabular.CB_ON_CELL, run)
+			}
+		case 4:
+			mt.RegisterPropertyCallback(mt, when, tabular.CB_ON_ITSELF, run)
+		case 5:
+			if rows := t.AllRows(); cb.OwnerIdx < len(rows) && rows[cb.OwnerIdx] != nil {
+				t.RegisterPropertyCallback(rows[cb.OwnerIdx], when, tabular.CB_ON_ITSELF, run)
+			}
+		case 6:
+			if c, err := t.CellAt(tabular.CellLocation{Row: 1, Column: cb.OwnerIdx}); err == nil && c != nil {
+				t.RegisterPropertyCallback(c, tabular.CB_AT_RENDER, tabular.CB_ON_ITSELF, run)
+			}
+		}
+	}
+}
+
+func randAlignCb(r *RNG, maxCol int) mdAlignCb {
+	cb := mdAlignCb{Owner: r.Intn(7), When: r.Intn(3), Col: r.Intn(maxCol + 1)}
+	switch cb.Owner {
+	case 1, 3:
+		cb.OwnerIdx = r.Intn(maxCol + 1)
+		if r.Pct(60) {
+			cb.OwnerIdx = cb.Col
+		}
+	case 5:
+		cb.OwnerIdx = r.Intn(3)
+	case 6:
+		cb.OwnerIdx = 1 + r.Intn(maxCol+1)
+	}
+	if (cb.Owner == 0 || cb.Owner == 1 || cb.Owner == 4 || cb.Owner == 5) && cb.When == 1 {
+		cb.When = 2 * r.Intn(2) // "render" is never invoked for a container on itself
+	}
+	n := 1 + r.Intn(3)
+	for i := 0; i < n; i++ {
+		cb.Seq = append(cb.Seq, r.Intn(4))
+	}
+	return cb
+}
+
+// ---- items other than strings whose text carries the metacharacters: the
+// renderer must escape by what the text IS, not by what type produced it
+var mdRunes = []int32{'|', '\n', '<', '>', '&', '"', '\'', '\\', '`', '*', '_', '%', ' ', '\t', ':', '-', '#', ';', 0, 'a', '7',
+	0x4e16, 0x0301, 0xff57, 0x1f44d, 0xfffd, -1, 0x110000, 0xd800}
+
+var mdCore = []string{"|", "\n", "<b>", "&", `"`, "'", `a\`, "&#x7c;", "%d", " x ", "a|b\nc", "世|"}
+
+func mdItemOfKind(kind int, s string) ItemSpec {
+	b := []byte(s)
+	switch kind {
+	case 0:
+		return ItemSpec{K: "valstr", B: b}
+	case 1:
+		return ItemSpec{K: "strerr", B: b}
+	case 2:
+		return ItemSpec{K: "obj", Mask: 1, S: b, G: []byte("g"), E: []byte("e")}
+	case 3:
+		return ItemSpec{K: "obj", Mask: 2, S: []byte("s"), G: b, E: []byte("e")}
+	case 4:
+		return ItemSpec{K: "obj", Mask: 4, S: []byte("s"), G: []byte("g"), E: b}
+	case 5:
+		return ItemSpec{K: "obj", Mask: 0, S: b, G: []byte("g|"), E: []byte("<e>")} // fmt %v of the struct
+	case 6:
+		return ItemSpec{K: "map", B: b, I: 3}
+	case 7:
+		return ItemSpec{K: "structx", B: b, I: 4}
+	case 8:
+		return ItemSpec{K: "cell", Inner: &ItemSpec{K: "str", B: b}}
+	case 9:
+		return ItemSpec{K: "pcell", Inner: &ItemSpec{K: "valstr", B: b}}
+	case 10:
+		return ItemSpec{K: "obj", Mask: 7, S: b, G: []byte("g"), E: []byte("e")}
+	default:
+		return ItemSpec{K: "obj", Mask: 17, S: b, W: len(b) % 7} // Stringer declaring its own width
+	}
+}
+
+const mdItemKinds = 12
+
+func mdPlainItem(r *RNG) ItemSpec {
+	switch r.Intn(6) {
+	case 0:
+		return ItemSpec{K: "nil"}
+	case 1:
+		return ItemSpec{K: "int", I: int64(r.Intn(2000) - 1000)}
+	case 2:
+		return ItemSpec{K: "bool", I: int64(r.Intn(2))}
+	case 3:
+		return ItemSpec{K: "float", F: float64(r.Intn(1000)) / 8}
+	case 4:
+		return ItemSpec{K: "slice", I: int64(r.Intn(100))}
+	default:
+		return ItemSpec{K: "int", I: int64(pick(r, []int32{124, 10, 60, 38}))} // the code points as plain ints: digits
+	}
+}
+
+// a cell item: mostly hostile strings, else the same texts through other types
+func mdItem(r *RNG) ItemSpec {
+	switch p := r.Intn(100); {
+	case p < 72:
+		return mdText(r)
+	case p < 82:
+		return ItemSpec{K: "rune", R: pick(r, mdRunes)}
+	case p < 94:
+		s := pick(r, mdCore)
+		if r.Pct(40) {
+			s = string(mdText(r).B)
+		}
+		return mdItemOfKind(r.Intn(mdItemKinds), s)
+	default:
+		return mdPlainItem(r)
+	}
+}
+
 // mdSpec is a table spec plus rows that the shared builder cannot express:
 // rows of no cells made as a ZERO VALUE (new(tabular.Row), &tabular.Row{},
 // a declared variable) and handed to AddRow, before the build proper
@@ -315,14 +516,33 @@ type mdSpec struct {
 	TableSpec
 	ZeroFirst int `json:"zero_first,omitempty"`
 	ZeroLast  int `json:"zero_last,omitempty"`
+	// render-time alignment callbacks, registered after the build (before the
+	// wrapper is made, or after it: CbAfterWrap), and the number of renders
+	// through the one wrapper (the last is judged).  With callbacks the spec's
+	// own earlier renders (stages, mutations, faults, re-entry) are dropped, so
+	// that every render happens after every direct SetProperty of the build.
+	AlignCbs    []mdAlignCb `json:"align_cbs,omitempty"`
+	CbAfterWrap bool        `json:"cb_after_wrap,omitempty"`
+	Renders     int         `json:"renders,omitempty"`
 }
 
-func (ms mdSpec) zeroFirst() int {
-	if len(ms.Mutations) > 0 {
-		return 0
+// normalise applies the rules above; Run, view and the shrinker all go through it
+func (ms mdSpec) normalise() mdSpec {
+	if len(ms.AlignCbs) > 0 {
+		ms.Stages, ms.Mutations, ms.StageFaults, ms.FaultAt, ms.Reenter = nil, nil, false, 0, 0
+	} else {
+		ms.Renders, ms.CbAfterWrap = 0, false
 	}
-	return ms.ZeroFirst
+	if len(ms.Stages) > 0 || len(ms.Mutations) > 0 || ms.StageFaults {
+		ms.ZeroLast = 0 // no point between build and final render to add them at
+	}
+	if len(ms.Mutations) > 0 {
+		ms.ZeroFirst = 0 // mutations address rows by table position
+	}
+	return ms
 }
+
+func (ms mdSpec) zeroFirst() int { return ms.normalise().ZeroFirst }
 
 func addZeroValueRows(t tabular.Table, n int) {
 	for k := 0; k < n; k++ {
@@ -340,9 +560,10 @@ func addZeroValueRows(t tabular.Table, n int) {
 
 // view from the spec alone, the zero-value rows at their positions
 func (ms mdSpec) view() View {
+	ms = ms.normalise()
 	v := ms.TableSpec.SpecView()
 	var rows []*[]VCell
-	for k := 0; k < ms.zeroFirst(); k++ {
+	for k := 0; k < ms.ZeroFirst; k++ {
 		rows = append(rows, &[]VCell{})
 	}
 	rows = append(rows, v.Rows...)
@@ -362,11 +583,13 @@ func init() {
 		ModelFn:  "C08_model",
 		Rule: "tables built through the public API (AddHeaders / AddRowItems / NewRow+Add+AddRow / AppendNewRow+Add / NewRowSizedFor / AddSeparator, plus the shared enrichments: second header, staged renders through one wrapper, property histories, mutations, write faults), rendered by markdown.Wrap(t).Render(); the expected view is computed from the spec, never read back from the table; " +
 			"zero-value rows (new(tabular.Row), &tabular.Row{}) added with AddRow before and after the build in about one table in six and in every first/last pattern of three small tables (outside DESIGN 13.10's domain, judged positionally: a line of padding columns each); " +
+			"items of every kind whose text can carry the metacharacters (runes - every metacharacter as a rune literal -, Stringers, errors, GoStringers, %v of structs / maps / pointers, nested Cell and *Cell, nil / int / bool / float / slice), each in every field position; " +
+			"render-time property callbacks that set or clear align.PropertyType during the render (owners: table, wrapper-as-table, column incl. column 0, row, cell; on itself / on cells; pre-cell, render, post-cell; value sequences that flip between renders; 1-3 renders through one wrapper; registered before or after Wrap) in every owner x time x column combination on a fixed table and on about one random table in seven - the expected delimiter row is the one for the alignments after the callbacks ran (last logged write, else the build's setting); " +
 			"texts additionally from an alphabet of strings another layer would interpret (printf verbs, template actions, $-references, escapes in source form, URL/numeric entities) and of white space other than U+0020, each in every field position; " +
 			"every shape with header in {none,0,1,2 cells} and up to 3 rows over {separator,0,1,2 cells} with texts from a pipe/backslash/entity/LF/space/wide-character alphabet and a random alignment assignment; " +
 			"every alignment assignment {unset,L,R,C} on column 0 and each column of four fixed hostile grids with <= 2 columns; every atom of the alphabet in first/last/padded position; random tables to 6x6 with random alignments; " +
 			"a case is non-trivial when the table has a column and a header (rendering is attempted); distinct = distinct (view, outcome, output)",
-		Exhaustive: "shapes (header x row-sequence up to length 3); all 4^(ncols+1) alignment assignments on four fixed grids with 1 and 2 columns; every alphabet atom (hostile and interpretable) in 7 field positions; zero-value rows in all 8 first/last count patterns of 3 small tables",
+		Exhaustive: "shapes (header x row-sequence up to length 3); all 4^(ncols+1) alignment assignments on four fixed grids with 1 and 2 columns; every alphabet atom (hostile and interpretable) in 7 field positions; zero-value rows in all 8 first/last count patterns of 3 small tables; all 29 rune items and 12 core texts x item kinds in 7 field positions; render-time alignment callbacks: owner kind x time x written column x 2 value sequences",
 		Gen: func(r *RNG, tier string) []json.RawMessage {
 			// NewRNG(seed) starts seed k at seed 1's state advanced by k-1 steps, so
 			// the streams of different seeds re-synchronise after a few cases and
@@ -389,14 +612,26 @@ func init() {
 				}
 				return ms
 			}
-			add := func(ts TableSpec) { addM(zeros(ts)) }
+			add := func(ts TableSpec) {
+				ms := zeros(ts)
+				// render-time alignment callbacks on about one table in seven
+				if r.Pct(14) {
+					n := 1 + r.Intn(2)
+					for i := 0; i < n; i++ {
+						ms.AlignCbs = append(ms.AlignCbs, randAlignCb(r, 3))
+					}
+					ms.Renders = 1 + r.Intn(3)
+					ms.CbAfterWrap = r.Bool()
+				}
+				addM(ms)
+			}
 			hows := []int{0, 0, 1, 2, 3}
 			maxRows := 3
 			if tier == "thorough" {
 				maxRows = 4
 			}
 			enumShapes(maxRows, 2, func(h int, rows []int) {
-				ts := shapeSpec(r, h, rows, mdText, hows)
+				ts := shapeSpec(r, h, rows, mdItem, hows)
 				if r.Pct(50) {
 					ts.Align = randAlign(r, 2)
 				}
@@ -431,18 +666,76 @@ func init() {
 			}
 			// every atom in each field position: header (first, middle, last), body
 			// first / middle / last, last cell of a short row (followed by padding)
-			for _, s := range append(append([]string{}, mdAtoms...), mdMetaAtoms...) {
-				h := []ItemSpec{Str("h1"), Str(s), Str("h3")}
+			positions := func(it ItemSpec) {
+				h := []ItemSpec{Str("h1"), it, Str("h3")}
 				addM(mdSpec{TableSpec: TableSpec{Header: &h, Rows: []RowSpec{
-					{Cells: []ItemSpec{Str(s), Str("m"), Str("z")}},
-					{Cells: []ItemSpec{Str("a"), Str(s)}},
-					{Cells: []ItemSpec{Str("a"), Str("m"), Str(s)}}},
+					{Cells: []ItemSpec{it, Str("m"), Str("z")}},
+					{Cells: []ItemSpec{Str("a"), it}},
+					{Cells: []ItemSpec{Str("a"), Str("m"), it}}},
 					Align: randAlign(r, 3)}})
-				h2 := []ItemSpec{Str(s), Str("h2"), Str(s)}
+				h2 := []ItemSpec{it, Str("h2"), it}
 				addM(mdSpec{TableSpec: TableSpec{Header: &h2, Rows: []RowSpec{
-					{Cells: []ItemSpec{Str("a"), Str(s), Str("z")}},
-					{Cells: []ItemSpec{Str(s)}}},
+					{How: 1 + r.Intn(3), Cells: []ItemSpec{Str("a"), it, Str("z")}},
+					{Cells: []ItemSpec{it}}},
 					Align: randAlign(r, 3)}})
+			}
+			for _, s := range append(append([]string{}, mdAtoms...), mdMetaAtoms...) {
+				positions(Str(s))
+			}
+			// the same for items that are not strings: every metacharacter as a
+			// rune, and the core hostile texts through every other item kind
+			for _, c := range mdRunes {
+				positions(ItemSpec{K: "rune", R: c})
+			}
+			for _, s := range mdCore {
+				for k := 0; k < mdItemKinds; k++ {
+					if tier == "thorough" || (k+len(s))%2 == 0 || k < 2 {
+						positions(mdItemOfKind(k, s))
+					}
+				}
+			}
+			for i := 0; i < 6; i++ {
+				positions(mdPlainItem(r))
+			}
+			// render-time alignment callbacks: every owner kind and time, writing the
+			// column-0 default, the own column or another one, once or with a flip,
+			// over one to three renders, on a table with and without direct settings
+			{
+				h := []ItemSpec{Str("h1"), Str(`h2\`)}
+				rows := []RowSpec{{Cells: []ItemSpec{Str("a|"), Str("b")}}, {Cells: []ItemSpec{Str("c")}}}
+				seqs := [][]int{{2}, {2, 0}, {0, 3}, {3, 1, 2}}
+				for owner := 0; owner < 7; owner++ {
+					for when := 0; when < 3; when++ {
+						if when == 1 && owner != 2 && owner != 3 && owner != 6 {
+							continue
+						}
+						if owner == 6 && when != 1 {
+							continue
+						}
+						for col := 0; col <= 2; col++ {
+							si := (owner + when + col) % len(seqs)
+							for _, seq := range [][]int{seqs[si], seqs[(si+1)%len(seqs)]} {
+								cb := mdAlignCb{Owner: owner, When: when, Col: col, Seq: seq}
+								switch owner {
+								case 1, 3:
+									cb.OwnerIdx = col
+									if len(seq) == 3 {
+										cb.OwnerIdx = (col + 1) % 3
+									}
+								case 5:
+									cb.OwnerIdx = col % 2
+								case 6:
+									cb.OwnerIdx = 1 + col%2
+								}
+								ms := mdSpec{TableSpec: TableSpec{Header: &h, Rows: rows}, AlignCbs: []mdAlignCb{cb}, Renders: len(seq), CbAfterWrap: (owner+col)%2 == 0}
+								if (owner+when+col)%3 == 0 {
+									ms.Align = map[int]int{col: 1 + (owner+when)%3}
+								}
+								addM(ms)
+							}
+						}
+					}
+				}
 			}
 			// zero-value rows at every position pattern of a small table
 			for code := 1; code < 9; code++ {
@@ -456,11 +749,11 @@ func init() {
 				n = 12000
 			}
 			for i := 0; i < n; i++ {
-				ts := randTable(r, 6, 6, mdText, hows)
+				ts := randTable(r, 6, 6, mdItem, hows)
 				if r.Pct(70) {
 					ts.Align = randAlign(r, 6)
 				}
-				enrichSpec(r, &ts, mdText)
+				enrichSpec(r, &ts, mdItem)
 				add(ts)
 			}
 			return out
@@ -470,27 +763,44 @@ func init() {
 			if err := json.Unmarshal(spec, &ms); err != nil {
 				panic(err)
 			}
+			ms = ms.normalise()
 			ts := ms.TableSpec
 			t := tabular.New()
-			addZeroValueRows(t, ms.zeroFirst())
+			addZeroValueRows(t, ms.ZeroFirst)
 			// BuildRenderW makes the wrapper after the build unless earlier renders
-			// are part of the history; the trailing zero-value rows join the table
-			// there, between build and render.  With a history the shared builder
-			// offers no such point: they are left out (of the table and the view).
-			if len(ts.Stages) > 0 || len(ts.Mutations) > 0 || ts.StageFaults {
-				ms.ZeroLast = 0
-			}
+			// are part of the history; trailing zero-value rows and render-time
+			// alignment callbacks join the table there, between build and render
+			var wlog []mdAlignWrite
+			var w RenderW
 			o := ts.BuildRenderW(t, func(t tabular.Table) RenderW {
 				addZeroValueRows(t, ms.ZeroLast)
-				return markdown.Wrap(t)
+				if len(ms.AlignCbs) > 0 && !ms.CbAfterWrap {
+					// the wrapper-as-owner kind needs a wrapper: a throw-away one
+					mdRegisterAlignCbs(t, markdown.Wrap(t), ms.AlignCbs, &wlog)
+				}
+				mt := markdown.Wrap(t)
+				if len(ms.AlignCbs) > 0 && ms.CbAfterWrap {
+					mdRegisterAlignCbs(t, mt, ms.AlignCbs, &wlog)
+				}
+				w = mt
+				return mt
 			})
+			for k := 1; k < ms.Renders && w != nil; k++ {
+				o = capture(w.Render)
+			}
 			v := ms.view() // judged against what was put in, not what the table now holds
+			// alignments: the last write of a render-time callback, else the build's
+			for _, wr := range wlog {
+				if wr.col < len(v.Align) {
+					v.Align[wr.col] = wr.val
+				}
+			}
 			vc := mdViewCoq(v)
 			return CaseOut{
 				Coq:        cqPair(cqPair(vc, mdWidthTable(v)), o.Coq()),
 				Desc:       mdDesc{Outcome: o, Sig: mdSig(v, o)},
-				Size:       ts.Size() + 2*(ms.ZeroFirst+ms.ZeroLast),
-				Tags:       append(append(append(shapeTags(v), mdTextTags(v)...), mdZeroTags(ms)...), "outcome="+o.Kind),
+				Size:       ts.Size() + mdHeaderBytes(ts) + 2*(ms.ZeroFirst+ms.ZeroLast) + ms.cbSize(),
+				Tags:       append(append(append(append(shapeTags(v), mdTextTags(v)...), mdZeroTags(ms)...), mdCbTags(ms, ts, len(wlog))...), "outcome="+o.Kind),
 				Key:        vc + o.Kind + string(o.Out),
 				Nontrivial: v.NCols > 0 && v.Header != nil,
 			}
@@ -501,6 +811,65 @@ func init() {
 
 // mdShrink: the shared one-step reductions, plus replacing one text (or all
 // texts) by "x", which the shared shrinker (halving) reaches only slowly
+// the shared Size() does not count header texts, so the shrinker would see no
+// gain in simplifying them
+func mdHeaderBytes(ts TableSpec) int {
+	n := 0
+	for _, h := range []*[]ItemSpec{ts.Header, ts.Header2} {
+		if h != nil {
+			for _, it := range *h {
+				n += len(it.B) + len(it.S)
+				if it.K != "str" {
+					n += 2
+				}
+			}
+		}
+	}
+	return n
+}
+
+func (ms mdSpec) cbSize() int {
+	n := 0
+	for _, cb := range ms.AlignCbs {
+		n += 3 + len(cb.Seq)
+	}
+	if len(ms.AlignCbs) > 0 {
+		n += ms.Renders
+	}
+	return n
+}
+
+func mdCbTags(ms mdSpec, ts TableSpec, writes int) []string {
+	var out []string
+	if len(ms.AlignCbs) > 0 {
+		out = append(out, fmt.Sprintf("render-align-callbacks:renders=%d", max(ms.Renders, 1)))
+		if writes > 0 {
+			out = append(out, "render-align-callbacks:wrote")
+		}
+		for _, cb := range ms.AlignCbs {
+			out = append(out, fmt.Sprintf("render-align-callback:owner=%d", cb.Owner))
+		}
+	}
+	kinds := map[string]bool{}
+	scan := func(items []ItemSpec) {
+		for _, it := range items {
+			if it.K != "str" {
+				kinds["item:"+it.K] = true
+			}
+		}
+	}
+	if ts.Header != nil {
+		scan(*ts.Header)
+	}
+	for _, r := range ts.Rows {
+		scan(r.Cells)
+	}
+	for k := range kinds {
+		out = append(out, k)
+	}
+	return out
+}
+
 func mdZeroTags(ms mdSpec) []string {
 	var out []string
 	if ms.zeroFirst() > 0 {
@@ -519,19 +888,44 @@ func mdShrink(spec json.RawMessage) []json.RawMessage {
 	if err := json.Unmarshal(spec, &ms); err != nil {
 		return nil
 	}
+	ms = ms.normalise()
 	var out []json.RawMessage
+	with := func(f func(*mdSpec)) {
+		b, _ := json.Marshal(ms)
+		var c mdSpec
+		json.Unmarshal(b, &c)
+		f(&c)
+		out = append(out, mustJSON(c))
+	}
 	for _, c := range mdShrinkTable(mustJSON(ms.TableSpec)) {
 		var ts TableSpec
 		if err := json.Unmarshal(c, &ts); err != nil {
 			continue
 		}
-		out = append(out, mustJSON(mdSpec{TableSpec: ts, ZeroFirst: ms.ZeroFirst, ZeroLast: ms.ZeroLast}))
+		with(func(m *mdSpec) { m.TableSpec = ts })
 	}
 	if ms.ZeroFirst > 0 {
-		out = append(out, mustJSON(mdSpec{TableSpec: ms.TableSpec, ZeroFirst: ms.ZeroFirst - 1, ZeroLast: ms.ZeroLast}))
+		with(func(m *mdSpec) { m.ZeroFirst-- })
 	}
 	if ms.ZeroLast > 0 {
-		out = append(out, mustJSON(mdSpec{TableSpec: ms.TableSpec, ZeroFirst: ms.ZeroFirst, ZeroLast: ms.ZeroLast - 1}))
+		with(func(m *mdSpec) { m.ZeroLast-- })
+	}
+	for i := range ms.AlignCbs {
+		i := i
+		with(func(m *mdSpec) { m.AlignCbs = append(append([]mdAlignCb{}, m.AlignCbs[:i]...), m.AlignCbs[i+1:]...) })
+		if n := len(ms.AlignCbs[i].Seq); n > 1 {
+			with(func(m *mdSpec) { m.AlignCbs[i].Seq = m.AlignCbs[i].Seq[:n-1] })
+			with(func(m *mdSpec) { m.AlignCbs[i].Seq = m.AlignCbs[i].Seq[1:] })
+		}
+		if ms.AlignCbs[i].Owner != 0 {
+			with(func(m *mdSpec) { m.AlignCbs[i].Owner, m.AlignCbs[i].OwnerIdx, m.AlignCbs[i].When = 0, 0, 0 })
+		}
+	}
+	if len(ms.AlignCbs) > 0 && ms.Renders > 1 {
+		with(func(m *mdSpec) { m.Renders-- })
+	}
+	if ms.CbAfterWrap {
+		with(func(m *mdSpec) { m.CbAfterWrap = false })
 	}
 	return out
 }
